@@ -3,7 +3,7 @@ from .fam_replica import ReplicaFam
 from .prop_C03 import REPLICA_TRUST
 
 PROP = Property(
-    "C07", ["HsVerif.Props.C07", "HsVerif.Props.C07Commit"], [ReplicaFam("c07")],
+    "C07", ["HsVerif.Props.C07", "HsVerif.Props.C07Commit", "HsVerif.Props.C07Signal"], [ReplicaFam("c07")],
     facts=[
         {"func": "protocol/synchronizer/synchronizer.go:Synchronizer.advanceView", "order": ["VerifySyncInfo", "UpdateHighQC", "View", "NextView", "AddEvent", "GetLeader"]},
         {"func": "protocol/synchronizer/timeoutrule_simple.go:Simple.VerifySyncInfo", "order": ["TC", "VerifyTimeoutCert", "QC", "VerifyQuorumCert"]},
@@ -13,11 +13,11 @@ PROP = Property(
     ],
     trusted=REPLICA_TRUST,
     assumptions=["evidence_is_quorum assumes the store is content addressed (C13), bit-field sizes consistent (C19) and AggQC maps have distinct keys (Go map)"],
-    partial="not proved in Lean: monotonicity of the high TC's view and the view-change signalling clause (handled ViewChangeEvents = view delta); both are checked by the oracle on every implementation trace and by model/implementation agreement",
+    partial=None,
 )
 
 META = {
-    "text": "Proof (partial): over the replica model and every sequence of delivered events: view_advances_by_one (the view starts at 1 and changes only by +1; the k-th advancement leaves view k), advance_on_evidence (each advancement was backed by a QC, TC or aggregate QC of a view >= the view left that passed the replica's verifier) and evidence_is_quorum (via C02: a quorum of distinct configured replicas really signed a block of that view, timeouts for that view, or their own timeout messages for that view); both timeout rules, all rulesets. highqc_view_monotone / highqc_view_monotone_run (the view of the high QC never decreases, along every event sequence; uses the store invariant 'block maps only grow, genesis stays stored', proved for every handler). committed_view_never_decreases (Props/C07Commit: between any two points of any run from the initial state the view of the committed block does not decrease; also across any adversary action in the system of replica models) — by a Hoare-logic chain through all handlers saying that the committer only ever moves to a block above the one committed before the call. Not proved in Lean: high-TC monotonicity and view-change signalling (handled ViewChangeEvents = view delta) — checked by the oracle on every implementation trace, together with ground-truth evidence for every advancement. Tie: same replica harness as C03, with forged / relabelled (including genesis-hash) / stale / replayed / signature-less certificates in proposals, new-view and timeout messages.",
+    "text": "Proof: over the replica model and every sequence of delivered events: view_advances_by_one (the view starts at 1 and changes only by +1; the k-th advancement leaves view k), advance_on_evidence (each advancement was backed by a QC, TC or aggregate QC of a view >= the view left that passed the replica's verifier) and evidence_is_quorum (via C02: a quorum of distinct configured replicas really signed a block of that view, timeouts for that view, or their own timeout messages for that view); both timeout rules, all rulesets. highqc_view_monotone / highqc_view_monotone_run (the view of the high QC never decreases, along every event sequence; uses the store invariant 'block maps only grow, genesis stays stored', proved for every handler). committed_view_never_decreases (Props/C07Commit: between any two points of any run from the initial state the view of the committed block does not decrease; also across any adversary action in the system of replica models) — by a Hoare-logic chain through all handlers saying that the committer only ever moves to a block above the one committed before the call. hightc_view_never_decreases (Props/C07Signal; no side condition, also across any adversary action at the system level). View-change signalling (Props/C07Signal): step_signal — in one step the views signalled plus those still queued are what was queued before followed by exactly s.view+1, …, s'.view; signalled_run / signalled_sys — along any run from the initial state (internal ViewChangeEvents may not be injected from outside: signal_counterexample) the views signalled so far followed by those still queued are exactly 2, 3, …, view: none skipped, none twice, in order (no_view_change_skipped, signalled_nodup, signalled_increasing). The oracle checks the same on every implementation trace, together with ground-truth evidence for every advancement. Tie: same replica harness as C03, with forged / relabelled (including genesis-hash) / stale / replayed / signature-less certificates in proposals, new-view and timeout messages.",
     "note": "Trusted: as C03. A genuine defect found by this check (a genesis-hash QC with an arbitrary claimed view moved the view without any signature) is fixed by 'fix: a QC for the genesis block is valid only with the genesis view'.",
     "technique": "Lean 4 invariant proof (Std.Do/mvcgen) + C02 soundness + differential correspondence with a real replica + ground-truth evidence oracle",
 }
